@@ -50,6 +50,43 @@ theorem sentinel_never_emitted (data : List Char) (vm fm : Option (List Char →
     rw [h3]; exact removeFrom_subset _ data 0
   exact ⟨hsub, fun hc => hno (hsub _ hc)⟩
 
+/-- **the bytes written are the UTF-8 encoding of the filtered text, character by character**: `process_scope` hands
+`out.write` one `buff[a:b].encode("utf-8")` per window; their concatenation is the encoding of the output text, i.e. of the
+input minus the filtered statements — every character that is kept is written with its complete byte sequence, no byte of a
+removed character is written, whatever multi-byte text precedes a cut (the cuts are made in the text, not in its encoding) -/
+theorem written_bytes_are_encoded_text (data : List Char) (vm fm : Option (List Char → Bool)) (out : List Char)
+    (r : ScopeResult) (hno : '\x00' ∉ data) (h : mainRun data vm fm = .ok (out, r)) :
+    writtenBytes data r = utf8 out ∧
+    writtenBytes data r = utf8 (removeRegions (filteredRegions r.stmts) data) := by
+  have h1 := (output_is_window_concat data vm fm out r hno h).1
+  have h3 := filtered_windows_are_statements data vm fm out r hno h
+  have hb : writtenBytes data r = utf8 out := by
+    rw [h1, utf8_flatten]
+    simp [writtenBytes, List.map_map, Function.comp_def]
+  exact ⟨hb, by rw [hb, ← h3]⟩
+
+/-- a run the theorem speaks about, with two- and three-byte characters before the cut: `é=1`, `B=→`, `C=2` filtered by the
+variable token `B` — the bytes written are `é=1\n` (5 bytes), `\nC=2\n` -/
+example : (match mainRunNames ['é', '=', '1', '\n', 'B', '=', '→', '\n', 'C', '=', '2', '\n'] [['B']] [] false false with
+    | .ok (_, r) => writtenBytes ['é', '=', '1', '\n', 'B', '=', '→', '\n', 'C', '=', '2', '\n'] r ==
+        [0xc3, 0xa9, 0x3d, 0x31, 0x0a, 0x0a, 0x43, 0x3d, 0x32, 0x0a]
+    | .error _ => false) = true := by decide +kernel
+
+/-- cutting the *encoded* dump at the character offsets instead (what an "encode once" shortcut does) is a different
+function as soon as a multi-byte character precedes the cut: for `é=1␤B=2␤` and the window `[4, 8)` (the text `B=2␤`) it
+yields the bytes of `␤B=2` -/
+theorem byte_cut_at_char_offsets_counterexample :
+    ((utf8 ['é', '=', '1', '\n', 'B', '=', '2', '\n']).take 8).drop 4 ≠ utf8 (slice ['é', '=', '1', '\n', 'B', '=', '2', '\n'] 4 8) := by
+  decide
+
+/-- **no NUL byte is written** (and so none of the appended sentinel): the bytes written contain a zero byte only if the
+dump did -/
+theorem no_nul_byte_written (data : List Char) (vm fm : Option (List Char → Bool)) (out : List Char)
+    (r : ScopeResult) (hno : '\x00' ∉ data) (h : mainRun data vm fm = .ok (out, r)) :
+    (0 : UInt8) ∉ writtenBytes data r := by
+  rw [(written_bytes_are_encoded_text data vm fm out r hno h).1]
+  exact utf8_no_nul out (sentinel_never_emitted data vm fm out r hno h).2
+
 /-- **a statement is filtered exactly when the predicate of its kind selects its name**: functions by the function
 predicate, assignments by the variable predicate (no predicate: nothing is filtered); its region is well formed -/
 theorem statements_follow_matchers (data : List Char) (vm fm : Option (List Char → Bool)) (out : List Char)
@@ -194,6 +231,12 @@ theorem fuel_suffices (data : List Char) (vm fm : Option (List Char → Bool)) :
     cases e with
     | index => right; rfl
     | fuel => exact absurd hm h
+
+/-- **only ASCII whitespace separates words**: the scanner's `isspace` (generated from the code's own predicate) is true for
+the characters 9–13 and 28–32 and for nothing else — in particular for no printable non-ASCII space (U+00A0, U+3000, …), which
+bash writes raw into a dump and does not split words at -/
+theorem space_only_ascii (c : Char) : isSpace c = (decide (9 ≤ c.toNat ∧ c.toNat ≤ 13) || decide (28 ≤ c.toNat ∧ c.toNat ≤ 32)) := by
+  simp [isSpace, inRanges, Generated.C34.spaceRanges]
 
 /-- the generated `str.isspace` / `str.isalnum` tables, on ASCII: blanks are 9–13 and 28–32, alphanumerics
 are the digits and letters -/
